@@ -720,6 +720,83 @@ static void dict_prefill_part(void)
 						}
 }
 
+/* (c4) placement: the compressed bytes are a function of the input BYTES - the same bytes handed over at different addresses
+ * (start offsets 0, 1, 3, 4, 7, 8, 9, 31, 63 from a page boundary; output at offsets 0 / 1) must give identical streams. Inputs incl.
+ * constant runs (the one-shot path has a shortcut for them), levels 0-3, one-shot / one call / 777-byte pieces, 3 kernel sets. */
+static void placement_part(void)
+{
+	static const int offs[] = { 0, 1, 3, 4, 7, 8, 9, 31, 63 };
+	static const int lens[] = { 8, 100, 1000, 5000, 9000 };
+	static const int cpus[] = { CPU_BASE, CPU_AVX2, CPU_AVX512G2 };
+	static uint8_t *inb, *outb[2], *data, *lb;
+	static struct isal_zstream *s;
+	if (!inb) {
+		inb = aligned_alloc(4096, 16384); outb[0] = aligned_alloc(4096, 32768); outb[1] = aligned_alloc(4096, 32768);
+		data = malloc(9000); lb = malloc(ISAL_DEF_LVL3_DEFAULT); s = malloc(sizeof *s);
+	}
+	char key[300];
+	uint64_t unit = 6000000;
+	for (int li = 0; li < 5; li++)
+		for (int kind = 0; kind < 6; kind++)
+			for (int level = 0; level <= 3; level++)
+				for (int api = 0; api < 3; api++)
+					for (int gz = 0; gz < 2; gz++) {
+						if (!v_mine(unit++))
+							continue;
+						if (nfail > 20 || v_deadline_hit())
+							return;
+						int len = lens[li], cpu = cpus[(li + kind + level + api) % 3];
+						cpu_set_level(cpu);
+						switch (kind) {
+						case 0: memset(data, 0, len); break;
+						case 1: memset(data, 0xff, len); break;
+						case 2: fill_pattern(data, len, PAT_LOG, 5); break;
+						case 3: fill_xorshift(data, len, 6); break;
+						case 4: memset(data, 0, len); if (len > 4200) fill_pattern(data + 4200, len - 4200, PAT_LOG, 7); else data[len - 1] = 'x'; break;
+						default: fill_pattern(data, len, PAT_TEXT, 8); memset(data, 0xff, len / 2); break;
+						}
+						size_t ol0 = 0;
+						for (unsigned oi = 0; oi < 9; oi++) {
+							uint8_t *in = inb + offs[oi], *out = outb[oi ? 1 : 0] + (oi & 1);
+							memcpy(in, data, len);
+							if (api == 0) isal_deflate_stateless_init(s); else isal_deflate_init(s);
+							s->level = level; s->level_buf = level ? lb : NULL; s->level_buf_size = level ? lvl_default[level] : 0;
+							s->gzip_flag = gz ? IGZIP_GZIP : IGZIP_DEFLATE;
+							s->next_out = out; s->avail_out = 30000;
+							int r;
+							if (api < 2) {
+								s->next_in = in; s->avail_in = len; s->end_of_stream = 1;
+								r = api == 0 ? isal_deflate_stateless(s) : isal_deflate(s);
+							} else {
+								size_t ip = 0;
+								do {
+									s->next_in = in + ip; s->avail_in = len - ip > 777 ? 777 : len - ip;
+									ip += s->avail_in;
+									s->end_of_stream = ip >= (size_t)len;
+									r = isal_deflate(s);
+								} while (r == 0 && s->internal_state.state != ZSTATE_END);
+							}
+							v_eval();
+							snprintf(key, sizeof key, "placement level=%d wrapper=%s api=%d cpu=%s input-kind=%d len=%d", level, gz ? "gzip" : "raw", api, cpu_level_name[cpu], kind, len);
+							if (r != COMP_OK) {
+								v_violation(key, "returned %d with the input at offset %d", r, offs[oi]);
+								nfail++;
+								break;
+							}
+							if (oi == 0)
+								ol0 = s->total_out;
+							else if (s->total_out != ol0 || memcmp(out, outb[0], ol0)) {
+								v_violation(key, "the same input bytes at start offset %d give %u bytes, at offset 0 %zu bytes%s: the result depends on where the caller's buffer lies", offs[oi],
+									    s->total_out, ol0, s->total_out == ol0 ? " (different bytes)" : "");
+								nfail++;
+								break;
+							}
+						}
+						v_count("placement_cases", 1);
+						v_nontrivial(v_hash(outb[0], ol0, unit));
+					}
+}
+
 /* ======================= (d) REUSE: reset == fresh ======================= */
 static uint8_t *RX[3];
 static int RXL[3] = { 600, 4096, 70 };
@@ -950,6 +1027,8 @@ int main(int argc, char **argv)
 		prefill_part();
 	if (!v_part || !strcmp(v_part, "prefill"))
 		dict_prefill_part();
+	if (!v_part || !strcmp(v_part, "prefill"))
+		placement_part();
 	if (!v_part || !strcmp(v_part, "reuse"))
 		reuse_part();
 	if (v_shard == 0) {
